@@ -72,7 +72,7 @@ def gen_scenario(rng, *, family='well', cyclic=False, init_env=False,
             'kind': rng.choice(('task', 'pytask')),
             'hard': hard, 'soft': soft,
             'outcome': out,
-            'variant': rng.randrange(4),
+            'variant': rng.randrange(24),
             'dur': rng.choice((0, 0, 1, 3, 10, 40, 200)),
             'shared': rng.random() < 0.3,
         })
@@ -274,16 +274,24 @@ def scripted_return(scn, i, status_enum, run_tag='r'):
         return upd, status_enum.FAILED
     if out == 'none':
         return None
+    def pick(*choices):
+        return choices[var % len(choices)]
+
     if out == 'notpair':
-        return (42, 'a string', [1, 2, 3], upd)[var]
+        return pick(42, 'a string', [1, 2, 3], upd, 0, '', (), [])
     if out == 'triple':
         return (upd, status_enum.DONE, 'extra') if var % 2 else (upd,)
     if out == 'badstatus':
-        return upd, ('DONE', 99, None, 2.5)[var]
+        # not a TaskStatus at all, or a TaskStatus that is not a final one
+        return upd, pick('DONE', 99, None, 2.5, status_enum.PENDING,
+                         status_enum.WAITING, 0, 3)
     if out == 'nonmapping':
-        return ([1, 2], 7, 'update', [('k', 'v')])[var], status_enum.DONE
+        # falsy ones included: "no update" is None, nothing else
+        return pick([1, 2], 7, 'update', [('k', 'v')], [], '', 0, (),
+                    False), status_enum.DONE
     if out == 'clobber':
-        return {tsk['name']: ('text', None, 5, ['a'])[var]}, status_enum.DONE
+        return {tsk['name']: pick('text', None, 5, ['a'], '', 0)}, \
+            status_enum.DONE
     raise AssertionError(out)
 
 
